@@ -47,6 +47,7 @@ n("n-c02-body-take-till", SS, "peek(take_until(\"*\"))", "peek(nom::sequence::te
 m("c07-channel-alpha-only", SS, "opt(anychar)(channel_bytes)", "opt(nom::combinator::verify(anychar, |c: &char| c.is_ascii_alphabetic()))(channel_bytes)", ["C07"])
 m("c10-type27-cog-via-tenths", S + "long_range_ais_broadcast.rs", "        _ => Some(data as f32), // Course in degrees (0-359)", "        _ => parse_cog(data * 10),", ["C10", "C11"])
 m("c09-parse-armored-payload", SS, "ais_sentence.message = Some(messages::parse(&unarmored)?)", "{ let _ = &unarmored; ais_sentence.message = Some(messages::parse(&ais_sentence.data)?) }", ["C09"])
+m("c18-alloc-only-no-trim-start", S + "parsers.rs", "    let char_count = size / 6;\n", "    #[cfg(all(feature = \"alloc\", not(feature = \"std\")))]\n    let size = if size > 120 { size - 6 } else { size };\n    let char_count = size / 6;\n", ["C18", "C13"])
 m("c12-reverse-54-55", S + "types.rs", "AntiPollutionEquipment => 54,", "AntiPollutionEquipment => 55,", ["C12"])
 m("c12-epfd-15", S + "types.rs", "            15 => None,\n            _ => Some(Self::Unknown(data)),", "            _ => Some(Self::Unknown(data)),", ["C12"])
 m("c12-navaid-swap", S + "aid_to_navigation_report.rs", "9 => Some(Self::BeaconCardinalN),\n            10 => Some(Self::BeaconCardinalE),", "9 => Some(Self::BeaconCardinalE),\n            10 => Some(Self::BeaconCardinalN),", ["C12"])
@@ -96,7 +97,7 @@ m("c06-revert-F1", SS, "ais_sentence.fragment_number.checked_sub(self.fragment_n
 m("c06-revert-F2", SS, "                // The group has been delivered; nothing may continue it\n                self.fragment_number = 0;\n", "", ["C06"])
 m("c06-revert-F8", SS, "        // Only a fragment whose payload has been stored advances the group\n        self.fragment_number = ais_sentence.fragment_number;\n        Ok(())", "        Ok(())", ["C06"])
 m("c06-revert-F8b", SS, "        #[cfg(any(feature = \"std\", feature = \"alloc\"))]\n        self.data.extend_from_slice(&ais_sentence.data);", "        self.fragment_number = ais_sentence.fragment_number;\n        #[cfg(any(feature = \"std\", feature = \"alloc\"))]\n        self.data.extend_from_slice(&ais_sentence.data);", ["C06"])
-m("c06-id-check-removed", SS, "        if self.message_id != ais_sentence.message_id {\n            return Err(\"Message ID out of sequence\".into());\n        }\n", "", ["C06", "C05"])
+m("c06-id-check-removed", SS, "        if self.message_id != ais_sentence.message_id {\n            return Err(\"Message ID out of sequence\".into());\n        }\n", "", ["C06"])
 m("c05-is-fragment-gt-1", SS, "self.num_fragments != 1", "self.num_fragments > 1", ["C05"])
 m("c05-data-not-cleared", SS, "                self.fragment_number = 0;\n                self.data = AisRawData::default();\n            }", "                self.fragment_number = 0;\n            }", ["C05", "C06"])
 m("c05-incomplete-to-some", SS, "            AisFragments::Incomplete(_) => None,", "            AisFragments::Incomplete(s) => Some(s),", ["C05"])
